@@ -1,4 +1,5 @@
 mod c01;
+mod c08;
 mod c05;
 mod c09;
 mod c06;
@@ -30,6 +31,7 @@ fn main() {
     match argv[1].as_str() {
         "c01" => c01::main(&args),
         "c05" => c05::main(&args),
+        "c08" => c08::main(&args),
         "c09" => c09::main(&args),
         "c06" => c06::main(&args),
         "c10" => c10::main(&args),
